@@ -1,4 +1,6 @@
 """C01 - recursive verification accepts exactly the trees that match their Manifests."""
+import posixpath
+
 from vf.engine import Cond, specialise
 from vf import venv_verify as ve
 
@@ -369,6 +371,42 @@ def s_odd(v):
     return c
 
 
+STRAY_NAMES = ('Manifest', 'Manifest.gz', 'x', 'Manifest.files', 'manifest', '.Manifest')
+TOP_NAMES = ('Manifest', 'Manifest.gz')
+
+
+def s_stray(v):
+    """a file without entry, named like a Manifest, in the top or in a sub-directory; the
+    top-level Manifest named Manifest or Manifest.gz"""
+    c = Ctx()
+    fs = c.fs = ModelFS()
+    c.top = TOP_NAMES[v.choice('top', 2)]
+    name = STRAY_NAMES[v.choice('stray_name', len(STRAY_NAMES))]
+    where = ('', 'sub', 'sub/deep')[v.choice('stray_dir', 3)]
+    fs.add_file('sub/deep/f', size=1, digest='f')
+    ents = [mk('DATA', 'sub/deep/f', 1, MD5=digest_for('MD5', 'f'))]
+    sp = posixpath.join(where, name)
+    c.stray = None
+    present = v.bool('stray_present')
+    if sp != c.top and present:
+        fs.add_file(sp, size=2, digest='s')
+        c.stray = sp
+    fs.add_manifest(c.top, ents)
+    c.path = ('', 'sub')[v.choice('vp', 2)]
+    c.last_mtime = None
+    return c
+
+
+def run_verify_top(c):
+    return tree.run_verify(tree.world(c), c.top, c.path, c.last_mtime)
+
+
+def judge_verify_top(c, out):
+    o = tree.oracle_verify(c.fs, c.top, c.path, c.last_mtime, first_only=True)
+    exp = tree.expected_outcomes(o)
+    return out in exp, exp == ('mismatch',)
+
+
 def run_verify(c):
     return tree.run_verify(tree.world(c), 'Manifest', c.path, c.last_mtime)
 
@@ -434,6 +472,14 @@ def m_conditions(tier):
                                 group='M-' + nm0[2:], twin=False,
                                 descr='real assert_directory_verifies on the model vs '
                                       'set-based oracle', bounds=bnd))
+    for fx in partitions([('top', range(2)), ('stray_dir', range(3))]):
+        nm = f'm_stray_t{fx["top"]}_d{fx["stray_dir"]}'
+        cs.append(make_cond(nm, s_stray, run_verify_top, judge_verify_top, fx, timeout=300,
+                            group='M-stray', twin=(fx['stray_dir'] == 1),
+                            descr='a stray file named like a Manifest (Manifest, Manifest.gz, '
+                                  'Manifest.files, manifest, .Manifest, x) in the top, a sub- '
+                                  'or a sub-sub-directory; top-level Manifest plain or .gz',
+                            bounds='6 names x 3 places x 2 top-level names x verified path'))
     return cs
 
 
